@@ -323,7 +323,7 @@ func c01Describe(sc c01Scenario) string {
 func runC01(res *lib.Result, tier string, seed int64, args []string) error {
 	n, batch := 192, 24
 	if tier == "thorough" {
-		n, batch = 4000, 40
+		n, batch = 2000, 40
 	}
 	res.Rule = "scenarios run against the real server in child processes (a crash kills only the child; the parent records the scenario that was running and goes on): token soup and raw bytes, mutated and truncated programs, annotation soup with enum blocks, cyclic class / alias worlds with indexed access, random luahelper.json files (regex metacharacters, invalid JSON, odd separators), partial unsaved edits, deep nesting (50-1500 levels), file events on malformed files; in every scenario hover, definition, references, completion, signatureHelp, documentHighlight and rename are sent at 3-5 columns of each of the first 14 lines, plus documentSymbol, documentColor and workspace/symbol; a request that does not answer within 15 s is a hang; non-trivial = every scenario; distinct by scenario"
 	work := lib.ScratchDir("c01")
